@@ -765,7 +765,8 @@ type dwPlan struct {
 }
 
 type dwTx struct {
-	at  time.Duration
+	at  time.Duration // write entered
+	end time.Duration // write returned
 	hbh uint32
 	raw []byte
 }
@@ -861,6 +862,27 @@ func c13ClientX(e *Env, forC14 bool, forced *c13Forced) {
 	if forced != nil {
 		peerDWRLeft = 0
 	}
+	// slow transport: every DWR write takes stallFor of fake time; the peer answers at once
+	slow := forced == nil && !forC14 && t.Chance(1, 7)
+	stallFor := []time.Duration{w.I, w.I + w.I/2, w.I / 2}[t.Draw(3)]
+	// one DWR write fails with a temporary error: that round is given up, the watchdog goes on
+	failCycle := -1
+	if forced == nil && !forC14 && !slow && t.Chance(1, 7) {
+		failCycle = t.Draw(3)
+	}
+	var failedAt []time.Duration
+	failArmed := false
+	if slow || failCycle >= 0 {
+		peerDWRLeft = 0
+		for i := range plans {
+			plans[i] = dwPlan{kind: "ack", delay: 0}
+		}
+		if slow {
+			w.sc.ArmWriteFault(&WriteFault{Kind: "stall", After: 9})
+			e.Fault("slow-dwr-writes")
+		}
+	}
+	stalledSince := time.Duration(-1)
 	appStalled := forced != nil // (the sweep does not stall application writes)
 	type pend struct {
 		req RefMsg
@@ -869,6 +891,32 @@ func c13ClientX(e *Env, forC14 bool, forced *c13Forced) {
 	var pending []pend
 	for steps := 0; steps < 2000; steps++ {
 		e.T.Mark()
+		if slow && w.sc.Stalled() {
+			if stalledSince < 0 {
+				stalledSince = w.now()
+			}
+			if w.now()-stalledSince >= stallFor {
+				w.sc.Resume()
+				stalledSince = -1
+				w.sc.ArmWriteFault(&WriteFault{Kind: "stall", After: 9}) // the next write is slow too
+				e.Quiesce()
+				continue
+			}
+			w.advance(stallFor - (w.now() - stalledSince))
+			continue
+		}
+		if failCycle >= 0 && !failArmed && len(cycleOf) == failCycle {
+			// (the next write of the client is the DWR opening cycle failCycle)
+			w.sc.ArmWriteFault(&WriteFault{Kind: "temp", After: t.Range(0, 30)})
+			failArmed = true
+			e.Fault("dwr-write-temp-error")
+		}
+		for _, r := range w.sc.WriteRecs() {
+			if strings.Contains(r.Err, "temporary write error") && !containsDur(failedAt, r.At) {
+				failedAt = append(failedAt, r.At)
+				failCycle = -1
+			}
+		}
 		if peerDWRLeft > 0 && !w.sc.Closed() && t.Chance(1, 3) {
 			// the peer probes the client: a state machine in the client role answers too
 			peerDWRLeft--
@@ -910,7 +958,7 @@ func c13ClientX(e *Env, forC14 bool, forced *c13Forced) {
 			}
 			r := txInCycle[c]
 			txInCycle[c]++
-			txs = append(txs, dwTx{o.at, o.msg.HbH, o.raw})
+			txs = append(txs, dwTx{o.at, o.end, o.msg.HbH, o.raw})
 			e.Act("dwr", "cycle %d tx %d t=%v", c, r, o.at)
 			oh, or := o.msg.find(avpOriginHost), o.msg.find(avpOriginRealm)
 			if oh == nil || or == nil || string(oh.Data) != smcHost || string(or.Data) != smcRealm {
@@ -1029,7 +1077,22 @@ func c13ClientX(e *Env, forC14 bool, forced *c13Forced) {
 		}
 	}
 	if !e.Failed() {
-		c13Check(w, plans, txs, hsAt, closedAt)
+		c13Check(w, plans, txs, hsAt, closedAt, failedAt)
+	}
+	// liveness: while the connection is open the watchdog keeps probing
+	if !e.Failed() && closedAt < 0 && !w.stuck && len(cycleOf) < len(plans) {
+		last := hsAt
+		if len(txs) > 0 {
+			last = txs[len(txs)-1].end
+		}
+		for _, f := range failedAt {
+			if f > last {
+				last = f
+			}
+		}
+		if w.now()-last > 2*w.W+time.Duration(w.R+2)*w.I {
+			e.Fail("C13/watchdog-stopped", "the connection is open, the last DWR activity was at %v and it is now %v (WatchdogInterval %v): the watchdog no longer probes the peer", last, w.now(), w.W)
+		}
 	}
 	if forC14 && !e.Failed() {
 		// end the connection, then every goroutine started on its behalf must leave
@@ -1067,7 +1130,16 @@ func c13ClientX(e *Env, forC14 bool, forced *c13Forced) {
 }
 
 // c13Check replays the reference watchdog timeline (DESIGN appendix A.6) against the observation.
-func c13Check(w *smcWorld, plans []dwPlan, txs []dwTx, hsAt, closedAt time.Duration) {
+func containsDur(l []time.Duration, d time.Duration) bool {
+	for _, x := range l {
+		if x == d {
+			return true
+		}
+	}
+	return false
+}
+
+func c13Check(w *smcWorld, plans []dwPlan, txs []dwTx, hsAt, closedAt time.Duration, failedAt []time.Duration) {
 	e := w.e
 	// success DWA delivery instants
 	var acks []time.Duration
@@ -1080,6 +1152,7 @@ func c13Check(w *smcWorld, plans []dwPlan, txs []dwTx, hsAt, closedAt time.Durat
 	type cyc struct {
 		hbh uint32
 		at  []time.Duration
+		end []time.Duration
 		raw [][]byte
 	}
 	var cycles []*cyc
@@ -1095,6 +1168,7 @@ func c13Check(w *smcWorld, plans []dwPlan, txs []dwTx, hsAt, closedAt time.Durat
 		}
 		c := cycles[len(cycles)-1]
 		c.at = append(c.at, tx.at)
+		c.end = append(c.end, tx.end)
 		c.raw = append(c.raw, tx.raw)
 	}
 	if len(cycles) == 0 {
@@ -1119,13 +1193,18 @@ func c13Check(w *smcWorld, plans []dwPlan, txs []dwTx, hsAt, closedAt time.Durat
 				return
 			}
 		}
+		for _, f := range failedAt {
+			if f > prevEnd && f < s {
+				prevEnd = f // a round given up on a write error: the next one is due W later
+			}
+		}
 		if s > prevEnd+w.W+w.W/10 {
 			e.Fail("C13/dwr-too-late", "cycle %d started at %v, the previous one ended at %v: more than WatchdogInterval %v later", ci, s, prevEnd, w.W)
 			return
 		}
 		// (retransmissions are grouped by hop-by-hop id; a T flag on them would be legal)
-		// reference: walk the wait windows
-		t0 := s
+		// reference: walk the wait windows (each opens when the transmission's write returned)
+		t0 := c.end[0]
 		r := 0
 		ambiguous := false
 		end := time.Duration(-1)
@@ -1149,10 +1228,34 @@ func c13Check(w *smcWorld, plans []dwPlan, txs []dwTx, hsAt, closedAt time.Durat
 				break
 			}
 			r++
-			t0 += w.I
+			if r < len(c.end) {
+				t0 = c.end[r] // the retransmission's own write may have taken time
+			} else {
+				t0 += w.I
+			}
 		}
 		_ = ambiguous
 		wantTx := r + 1
+		// a (re)transmission whose write failed ends the round there: nothing more is sent, no close
+		aborted := time.Duration(-1)
+		for _, f := range failedAt {
+			nextStart := time.Duration(1 << 62)
+			if ci+1 < len(cycles) {
+				nextStart = cycles[ci+1].at[0]
+			}
+			if f > c.at[0] && f < nextStart && (end < 0 || f < end) {
+				aborted = f
+			}
+		}
+		if aborted >= 0 {
+			if len(c.at) > wantTx {
+				e.Fail("C13/unexpected-retransmission", "cycle %d: %d transmissions, the reference allows at most %d", ci, len(c.at), wantTx)
+				return
+			}
+			prevEnd = aborted
+			e.Probe("round-abandoned-on-write-error")
+			continue
+		}
 		if last && closedAt < 0 && end < 0 {
 			// the observation stopped in the middle of this cycle
 			if len(c.at) > wantTx {
@@ -1169,7 +1272,7 @@ func c13Check(w *smcWorld, plans []dwPlan, txs []dwTx, hsAt, closedAt time.Durat
 			return
 		}
 		for i := 1; i < len(c.at); i++ {
-			if gap := c.at[i] - c.at[i-1]; gap < w.I || gap > w.I+w.I/10 {
+			if gap := c.at[i] - c.end[i-1]; gap < w.I || gap > w.I+w.I/10 {
 				e.Fail("C13/retransmit-spacing", "cycle %d: retransmission %d came %v after the previous transmission, RetransmitInterval is %v", ci, i, c.at[i]-c.at[i-1], w.I)
 				return
 			}
